@@ -56,7 +56,7 @@ def modelAnswers (qs : List Q) : List String × List String :=
   let ds : Req → Option Nat := fun r => ((table.find? (fun e => e.1 == r)).map (·.2)).getD none
   let arr := qs.map (fun q => Ev.arrive (reqOf q))
   let fin := qs.map (fun _ => (Ev.finish 0 : Ev Req))
-  let out := (run groupKey ds memoById (empty : St Bytes Req Nat) (arr ++ fin ++ arr)).2.map (fun p => showAns p.2)
+  let out : List String := (Model.Resolver.run groupKey ds memoById (empty : St Model.Resolver.Bytes Req Nat) (arr ++ fin ++ arr)).2.map (fun p => showAns p.2)
   (out.take qs.length, out.drop qs.length)
 
 def step (c impl : String) : String :=
